@@ -210,7 +210,7 @@ ADDED = {
            "the library's own 'Unhandled exception in background task' report counts as an unhandled exception.",
     "C08": "Also: API initialised late (console unreachable when init() is called), outage longer than the timeout, idling to "
            "the horizon when no timer is armed, and scripted cases of a silent AND stalled link whose close lingers 1-100 s after "
-           "the heartbeat reset.",
+           "the heartbeat reset; a second life of the same object (init, 100 s, shutdown, init) monitored from its own start.",
     "C09": "Also: console reachable late, every attempt slow (9 latencies), failed attempts of five kinds, re-connection storm cut "
            "off after 40 connections inside one handshake.",
     "C10": "Also: every history as one segment, all walks over the reported modes, re-init of the same object with the "
